@@ -189,6 +189,7 @@ type c26Child struct {
 	log      *bufio.Writer
 	logf     *os.File
 	holds    bool
+	aborted  bool
 	class    string
 	detail   string
 	tags     map[string]bool
@@ -240,7 +241,7 @@ func waitFor(cond func() bool, d time.Duration) bool {
 	return true
 }
 
-const c26Wait = 5 * time.Second
+const c26Wait = 3 * time.Second
 
 // mapped: is stream r's channel the current map entry of its address? (harness bookkeeping of the map)
 type c26Map map[string]int
@@ -248,6 +249,9 @@ type c26Map map[string]int
 func (c *c26Child) fail(msg string) {
 	if c.holds {
 		c.holds, c.detail = false, msg
+	}
+	if strings.Contains(msg, "did not") {
+		c.aborted = true // a wait timed out: the run is off the expected path, do not wait again
 	}
 }
 
@@ -363,6 +367,9 @@ func RunChild(in In, logPath string) {
 	m := c26Map{}
 	c.m = m
 	for _, op := range in.Ops {
+		if c.aborted {
+			break
+		}
 		r := op.R
 		if r < 0 || r >= len(c.st) {
 			continue
